@@ -51,6 +51,12 @@ CLAIMED = {
         "Tie to the code: translator + vm_compute correspondence against Multi_Range_Potential_Form and potable [Pair] definitions. The statement without the distinct-key hypothesis is refuted in Coq (known finding C08-dupkey).",
    note="Trusted: Coq kernel; tools/py2coq.py printing; floats abstracted by order-isomorphic integers (code only compares); stable-sort model of list.sort; harness generators. No axioms.",
    technique="Coq proof over translated (py2coq) decision procedures + vm_compute correspondence", ref="DESIGN.md section 4 C08"),
+ 'C11': dict(
+   text="Coq theorems over _init_cutoff modelled in IEEE binary64 (Flocq BinarySingleNaN): for every k up to 2^40 and every real (hence decimal) step delta in the normal range, with cutoff and dr the floats nearest k*delta and delta, nr = round(cutoff/dr)+1 = k+1 (c11_rows: real-number core by relative-error bounds + interval, lifted through Bdiv_correct / Bnearbyint_correct / Btrunc_correct); "
+        "the truncating expression before the repair is refuted (0.3/0.1 -> 3 rows); nr&dr -> cutoff=(nr-1)*dr, cutoff&nr kept, all three / a step alone / non-positive values -> configuration error, defaults. "
+        "Tie: exact-body assertions of _init_cutoff, _check_positive, create_cutoff and the factories' defaults; parser results compared bit for bit with the model on decimal lattices (both grids); written row counts on all 11 targets.",
+   note="Trusted: Coq kernel; Flocq as the definition of binary64; Python float(str) correctly rounded and round() = half-even (assumed); Reals axioms + classic + primitive axioms (interval).",
+   technique="Coq proof over a Flocq binary64 model + bit-exact vm_compute correspondence", ref="DESIGN.md section 4 C11"),
  'C13': dict(
    text="Coq theorems over model/Filter.v with FilteredConfigParser._check_tuple regenerated from the source: include S keeps exactly the entries all of whose species are in S, exclude S those none of whose species is in S; the filtered pair/embedding/density lists equal the parse of the file with the offending lines deleted (order and surviving entries unchanged); "
         "a read through a view depends on that view's own settings only, for every history of creating and reading views (induction over the history); the shared-state behaviour before the repair is refuted in Coq. "
